@@ -131,3 +131,30 @@ def meta_preprocessor(prop="C03"):
         return None
     c.search_fn = search
     return c
+
+
+def rx_obligations(prop="C15"):
+    """Engine B: the two line patterns of the metadata block partition the lines the way the format is documented: a line indented by four or more blanks
+    continues the previous option (it is never a new `key:` line), and every `key: value` line with at most three leading blanks is a key line"""
+    from harness import loader
+    from revc.oblig import RX, langs_disjoint, lang_nonempty
+    from revc import spec as SP
+    from revc.translate import lang
+    ut = loader.import_repo("ford.utils")
+    out = []
+    meta, more = RX("ford.utils.META_RE", ut.META_RE, "match", prop), RX("ford.utils.META_MORE_RE", ut.META_MORE_RE, "match", prop)
+    try:
+        out.append(langs_disjoint(f"{prop}.B.META_RE.disjoint_from_continuation_lines", "ford.utils.META_RE / META_MORE_RE", meta.L, more.L,
+                                  "no line is both a `key: value` line and a continuation line (META_RE is tried first: a continuation line of the form '    word: text' must stay a continuation)",
+                                  replay=lambda w: {"confirmed": bool(ut.META_RE.match(w) and ut.META_MORE_RE.match(w)), "input": w,
+                                                    "actual": {"META_RE": bool(ut.META_RE.match(w)), "META_MORE_RE": bool(ut.META_MORE_RE.match(w))}, "how": "both patterns on the witness line"}))
+    except Exception as e:
+        from harness.core import OR, UNKNOWN
+        out.append(OR(id=f"{prop}.B.META_RE.disjoint_from_continuation_lines", status=UNKNOWN, kind="B", target="ford.utils.META_RE", detail=f"unsupported: {e}"))
+    keyline = SP.seq(SP.alt(SP.lit(""), SP.lit(" "), SP.lit("  "), SP.lit("   ")), SP.plus(SP.cls(SP.chars("abcdefghijklmnopqrstuvwxyzABCDEFGHIJKLMNOPQRSTUVWXYZ0123456789_-"))), SP.lit(":"),
+                     SP.star(SP.notcls(SP.chars("\n"))))
+    out.append(lang_nonempty(f"{prop}.G.META_RE.spec_inhabited", "ford.utils.META_RE", keyline, "key lines"))
+    out.append(meta.covers(f"{prop}.B.META_RE.covers_key_lines", keyline, "every line `key: value` with at most three leading blanks is a key line"))
+    contline = SP.seq(SP.lit("    "), SP.star(SP.notcls(SP.chars("\n"))))
+    out.append(more.covers(f"{prop}.B.META_MORE_RE.covers_continuation_lines", contline, "every line indented by four or more blanks is a continuation line"))
+    return out
